@@ -68,20 +68,20 @@ def emitted_runtime_text():
     return f.getvalue()
 
 
-LOAD_SHAPE = ("FunctionDef(name='load_{n}', args=arguments(posonlyargs=[], args=[arg(arg='self'), arg(arg='address')], "
-              "kwonlyargs=[], kw_defaults=[], defaults=[]), body=[Assign(targets=[Name(id='data', ctx=Store())], "
-              "value=Call(func=Attribute(value=Name(id='self', ctx=Load()), attr='read_mem', ctx=Load()), "
-              "args=[Name(id='address', ctx=Load()), Constant(value={s})], keywords=[])), "
-              "Return(value=Subscript(value=Call(func=Attribute(value=Name(id='struct', ctx=Load()), attr='unpack', "
-              "ctx=Load()), args=[Constant(value='{f}'), Name(id='data', ctx=Load())], keywords=[]), "
-              "slice=Constant(value=0), ctx=Load()))], decorator_list=[], type_params=[])")
-STORE_SHAPE = ("FunctionDef(name='store_{n}', args=arguments(posonlyargs=[], args=[arg(arg='self'), arg(arg='address'), "
-               "arg(arg='value')], kwonlyargs=[], kw_defaults=[], defaults=[]), body=[Assign(targets=[Name(id='data', "
-               "ctx=Store())], value=Call(func=Attribute(value=Name(id='struct', ctx=Load()), attr='pack', ctx=Load()), "
-               "args=[Constant(value='{f}'), Name(id='value', ctx=Load())], keywords=[])), "
-               "Expr(value=Call(func=Attribute(value=Name(id='self', ctx=Load()), attr='write_mem', ctx=Load()), "
-               "args=[Name(id='address', ctx=Load()), Name(id='data', ctx=Load())], keywords=[]))], "
-               "decorator_list=[], type_params=[])")
+LOAD_TMPL = '''
+def load_{n}(self, address):
+    data = self.read_mem(address, {s})
+    return struct.unpack("{f}", data)[0]
+'''
+STORE_TMPL = '''
+def store_{n}(self, address, value):
+    data = struct.pack("{f}", value)
+    self.write_mem(address, data)
+'''
+
+
+def _dump_src(src):
+    return ast.dump(ast.parse(src).body[0])
 
 
 def extract_runtime(text):
@@ -114,8 +114,9 @@ def extract_runtime(text):
             sfmt = st.body[0].value.args[0].value
         except (AttributeError, IndexError):
             raise TieBroken('load/store helper of %s has an unexpected shape' % ty)
-        if ast.dump(ld) != LOAD_SHAPE.format(n=ty, s=size, f=lfmt) or \
-                ast.dump(st) != STORE_SHAPE.format(n=ty, f=sfmt):
+        if not isinstance(size, int) or not isinstance(lfmt, str) or not isinstance(sfmt, str) or \
+                ast.dump(ld) != _dump_src(LOAD_TMPL.format(n=ty, s=size, f=lfmt)) or \
+                ast.dump(st) != _dump_src(STORE_TMPL.format(n=ty, f=sfmt)):
             raise TieBroken('load/store helper of %s has an unexpected shape' % ty)
         rows.append((ty, lfmt, size, sfmt))
     mem = {k: ast.dump(meths[k]) for k in ('read_mem', 'write_mem', 'get_memory') if k in meths}
@@ -171,3 +172,932 @@ def regen(ctx):
     changed = ctx.write_gen('ir2py_runtime', coq)
     ctx.cov['stages']['gen_ir2py_runtime'] = {'functions': hashes, 'ls_rows': len(rows), 'changed_on_disk': changed}
     return infos, rows, text
+
+
+# ------------------------------------------------------------------ building and running IR
+def _ppci():
+    vlib.ensure_repo_on_path()
+    import ppci.ir as ir
+    from ppci.lang.python.ir2py import ir_to_python
+    from ppci.irutils import verify_module
+    return ir, ir_to_python, verify_module
+
+
+def new_function(ir, m, name, ret_ty, params):
+    f = ir.Function(name, ir.Binding.GLOBAL, ret_ty)
+    m.add_function(f)
+    ps = []
+    for (pn, pt) in params:
+        p = ir.Parameter(pn, pt)
+        f.add_parameter(p)
+        ps.append(p)
+    blk = ir.Block('entry')
+    f.add_block(blk)
+    f.entry = blk
+    return f, blk, ps
+
+
+def emit_module(m, verify=True):
+    ir, ir_to_python, verify_module = _ppci()
+    if verify:
+        verify_module(m)
+    f = io.StringIO()
+    ir_to_python([m], f)
+    return f.getvalue()
+
+
+def load_module(text):
+    ns = {}
+    exec(compile(text, '<ir2py-emitted>', 'exec'), ns)
+    return ns
+
+
+def entry_lines(text, fname):
+    """stripped statement lines emitted for block 'entry' of function fname, without the epilogue"""
+    lines = text.splitlines()
+    out, state = [], 0
+    for ln in lines:
+        if state == 0 and ln.startswith('def %s(' % fname):
+            state = 1
+        elif state == 1 and ln.strip() == 'if _irpy_current_block == "entry":':
+            state = 2
+        elif state == 2:
+            if ln.strip().startswith('rt.free('):
+                break
+            out.append(ln.strip())
+    return out
+
+
+def tyname(bits, signed):
+    return ('i' if signed else 'u') + str(bits)
+
+
+def coq_ty(bits, signed):
+    return tyname(bits, signed)
+
+
+def rng_of(bits, signed):
+    return (-(1 << (bits - 1)), 1 << (bits - 1)) if signed else (0, 1 << bits)
+
+
+def value_pool(rng, bits, signed, extra_random=2):
+    lo, hi = rng_of(bits, signed)
+    s = {0, 1, 2, 3, 7, lo, lo + 1, hi - 1, hi - 2, (hi - 1) // 2, bits - 1, bits, bits + 1, 100 % hi}
+    if signed:
+        s |= {-1, -2, -7, -3}
+    else:
+        s |= {1 << (bits - 1), (1 << (bits - 1)) - 1, (1 << (bits - 1)) + 1}
+    for _ in range(extra_random):
+        s.add(rng.randrange(lo, hi))
+    return sorted(v for v in s if lo <= v < hi)
+
+
+def small_pool(rng, bits, signed):
+    lo, hi = rng_of(bits, signed)
+    s = {0, 1, lo, hi - 1, 3, bits - 1, bits, rng.randrange(lo, hi)}
+    if signed:
+        s |= {-1, -7}
+    else:
+        s |= {1 << (bits - 1)}
+    return sorted(v for v in s if lo <= v < hi)
+
+
+# ------------------------------------------------------------------ independent oracle of Spec/IRSemArith
+def o_wrap(v, bits, signed):
+    m = v & ((1 << bits) - 1)
+    return m - (1 << bits) if signed and (m >> (bits - 1)) & 1 else m
+
+
+def o_binop(op, bits, signed, a, b):
+    """None = undefined by the IR semantics"""
+    from fractions import Fraction
+    lo, hi = rng_of(bits, signed)
+    if op in ('+', '-', '*'):
+        return o_wrap({'+': a + b, '-': a - b, '*': a * b}[op], bits, signed)
+    if op in ('/', '%'):
+        if b == 0 or (signed and a == lo and b == -1):
+            return None
+        q = math.trunc(Fraction(a, b))
+        return q if op == '/' else a - b * q
+    if op in ('|', '&', '^'):
+        ua, ub = a & ((1 << bits) - 1), b & ((1 << bits) - 1)
+        return o_wrap({'|': ua | ub, '&': ua & ub, '^': ua ^ ub}[op], bits, signed)
+    if not (0 <= b < bits):
+        return None
+    if op == '<<':
+        return o_wrap(a * (2 ** b), bits, signed)
+    if op == '>>':
+        ua = a & ((1 << bits) - 1)
+        r = ua >> b
+        if signed and a < 0:
+            r |= ((1 << b) - 1) << (bits - b)       # replicate the sign bit
+        return o_wrap(r, bits, signed)
+    ua = a & ((1 << bits) - 1)
+    if op == 'ror':
+        b = (bits - b) % bits
+    return o_wrap(((ua << b) | (ua >> (bits - b))) & ((1 << bits) - 1), bits, signed)
+
+
+def o_unop(op, bits, signed, a):
+    ua = a & ((1 << bits) - 1)
+    return o_wrap((~ua if op == '~' else -a), bits, signed)
+
+
+def o_cast_float(bits, signed, x):
+    if math.isnan(x) or math.isinf(x):
+        return None
+    q = math.trunc(x)
+    lo, hi = rng_of(bits, signed)
+    return q if lo <= q < hi else None
+
+
+def py_round_wrap(bits, signed, x):
+    """what int(round(x)) + correct gives: used only to CLASSIFY a mismatch as the known rounding defect"""
+    try:
+        return o_wrap(int(round(x)), bits, signed)
+    except (OverflowError, ValueError):
+        return None
+
+
+def outcome(fn, *args):
+    try:
+        return OkV(fn(*args))
+    except Exception:   # noqa: BLE001
+        return Internal
+
+
+# ------------------------------------------------------------------ one-instruction modules
+def build_arith_module(ir):
+    """all emitted (Python-syntax) binops, unops and casts in one module; returns (module, index)"""
+    m = ir.Module('c24m')
+    idx = {'binop': {}, 'unop': {}, 'cast': {}, 'fcast': {}}
+    for (tn, bits, sg) in INT_TYPES:
+        ty = getattr(ir, tn)
+        for k, (op, cop) in enumerate(BINOPS):
+            if op in ('rol', 'ror'):
+                continue
+            fname = 'b_%s_%d' % (tn, k)
+            f, blk, (a, b) = new_function(ir, m, fname, ty, [('a', ty), ('b', ty)])
+            r = ir.Binop(a, op, b, 'r', ty)
+            blk.add_instruction(r)
+            blk.add_instruction(ir.Return(r))
+            idx['binop'][(op, tn)] = fname
+        for k, (op, cop) in enumerate(UNOPS):
+            fname = 'u_%s_%d' % (tn, k)
+            f, blk, (a,) = new_function(ir, m, fname, ty, [('a', ty)])
+            r = ir.Unop(op, a, 'r', ty)
+            blk.add_instruction(r)
+            blk.add_instruction(ir.Return(r))
+            idx['unop'][(op, tn)] = fname
+        for (sn, sbits, ssg) in INT_TYPES:
+            fname = 'c_%s_%s' % (sn, tn)
+            f, blk, (a,) = new_function(ir, m, fname, ty, [('a', getattr(ir, sn))])
+            r = ir.Cast(a, 'r', ty)
+            blk.add_instruction(r)
+            blk.add_instruction(ir.Return(r))
+            idx['cast'][(sn, tn)] = fname
+        for sn in ('f32', 'f64'):
+            fname = 'c_%s_%s' % (sn, tn)
+            f, blk, (a,) = new_function(ir, m, fname, ty, [('a', getattr(ir, sn))])
+            r = ir.Cast(a, 'r', ty)
+            blk.add_instruction(r)
+            blk.add_instruction(ir.Return(r))
+            idx['fcast'][(sn, tn)] = fname
+    return m, idx
+
+
+def build_rot_module(ir, op, tn):
+    m = ir.Module('c24rot')
+    ty = getattr(ir, tn)
+    f, blk, (a, b) = new_function(ir, m, 'f', ty, [('a', ty), ('b', ty)])
+    r = ir.Binop(a, op, b, 'r', ty)
+    blk.add_instruction(r)
+    blk.add_instruction(ir.Return(r))
+    return m
+
+
+def build_mem_module(ir):
+    """f_<ty>(v): alloc 16 bytes, store v at offset 0 (through gen_store), load it back (gen_load)"""
+    m = ir.Module('c24mem')
+    for (tn, bits, sg) in INT_TYPES:
+        ty = getattr(ir, tn)
+        f, blk, (v,) = new_function(ir, m, 'm_' + tn, ty, [('v', ty)])
+        al = ir.Alloc('al', 16, 8)
+        blk.add_instruction(al)
+        ad = ir.AddressOf(al, 'ad')
+        blk.add_instruction(ad)
+        blk.add_instruction(ir.Store(v, ad))
+        r = ir.Load(ad, 'r', ty)
+        blk.add_instruction(r)
+        blk.add_instruction(ir.Return(r))
+        # reinterpretation: store as ty, load back as the type of the same width and other signedness
+        oty = getattr(ir, tyname(bits, not sg))
+        f, blk, (v,) = new_function(ir, m, 'x_' + tn, oty, [('v', ty)])
+        al = ir.Alloc('al', 16, 8)
+        blk.add_instruction(al)
+        ad = ir.AddressOf(al, 'ad')
+        blk.add_instruction(ad)
+        blk.add_instruction(ir.Store(v, ad))
+        r = ir.Load(ad, 'r', oty)
+        blk.add_instruction(r)
+        blk.add_instruction(ir.Return(r))
+    return m
+
+
+# ------------------------------------------------------------------ CFG programs with phis
+class Prog:
+    """a small IR function over i32 built from a description, so that the reference interpreter does
+    not depend on ppci: blocks = {name: (phis, body, term)};
+    phis = [(var, {pred: src})], body = [(var, op, x, y)], src/x/y = var name or int constant,
+    term = ('jump', B) | ('cjump', x, cond, y, B1, B2) | ('ret', x)"""
+
+    def __init__(self, name, params, blocks, order, bits=32, signed=True):
+        self.name, self.params, self.blocks, self.order = name, params, blocks, order
+        self.bits, self.signed = bits, signed
+
+    def build(self, ir, m):
+        ty = getattr(ir, tyname(self.bits, self.signed))
+        f = ir.Function(self.name, ir.Binding.GLOBAL, ty)
+        m.add_function(f)
+        vals = {}
+        for pn in self.params:
+            p = ir.Parameter(pn, ty)
+            f.add_parameter(p)
+            vals[pn] = p
+        blks = {}
+        for bn in self.order:
+            b = ir.Block(bn)
+            f.add_block(b)
+            blks[bn] = b
+        f.entry = blks[self.order[0]]
+        nconst = [0]
+
+        def val(blk, x):
+            if isinstance(x, int):
+                nconst[0] += 1
+                c = ir.Const(x, 'k%d' % nconst[0], ty)
+                blk.add_instruction(c)
+                return c
+            return vals[x]
+        phis = []
+        self.srcname = {}
+        for bn in self.order:
+            for (v, inc) in self.blocks[bn][0]:
+                p = ir.Phi(v, ty)
+                blks[bn].add_instruction(p)
+                vals[v] = p
+                phis.append((p, inc))
+        # constants used by phis must be defined in the predecessor: create them first in those blocks
+        pending = []
+        for bn in self.order:
+            b = blks[bn]
+            _, body, term = self.blocks[bn]
+            for (v, op, x, y) in body:
+                ins = ir.Binop(val(b, x), op, val(b, y), v, ty)
+                b.add_instruction(ins)
+                vals[v] = ins
+            pending.append((b, term))
+        for (p, inc) in phis:
+            for pred, src in inc.items():
+                pb = blks[pred]
+                if isinstance(src, int):
+                    nconst[0] += 1
+                    c = ir.Const(src, 'k%d' % nconst[0], ty)
+                    pb.add_instruction(c)
+                    p.set_incoming(pb, c)
+                    self.srcname[(p.name, pred)] = c.name
+                else:
+                    p.set_incoming(pb, vals[src])
+                    self.srcname[(p.name, pred)] = src
+        for (b, term) in pending:
+            if term[0] == 'jump':
+                b.add_instruction(ir.Jump(blks[term[1]]))
+            elif term[0] == 'cjump':
+                b.add_instruction(ir.CJump(val(b, term[1]), term[2], val(b, term[3]), blks[term[4]], blks[term[5]]))
+            else:
+                b.add_instruction(ir.Return(val(b, term[1])))
+        return f
+
+    def successors(self, bn):
+        t = self.blocks[bn][2]
+        return [t[1]] if t[0] == 'jump' else ([t[4], t[5]] if t[0] == 'cjump' else [])
+
+    def interp(self, args, phi_mode='edge', fuel=5000):
+        """reference semantics. phi_mode 'edge' = IR semantics; 'all' = the known ir2py defect
+        (phis of every successor are assigned when a block ends), used only to classify a mismatch"""
+        env = dict(zip(self.params, args))
+
+        def get(x):
+            return x if isinstance(x, int) else env[x]
+        cur = self.order[0]
+        CMP = {'==': lambda a, b: a == b, '<': lambda a, b: a < b, '>': lambda a, b: a > b,
+               '>=': lambda a, b: a >= b, '<=': lambda a, b: a <= b, '!=': lambda a, b: a != b}
+        while fuel > 0:
+            fuel -= 1
+            _, body, term = self.blocks[cur]
+            for (v, op, x, y) in body:
+                r = o_binop(op, self.bits, self.signed, get(x), get(y))
+                if r is None:
+                    return None
+                env[v] = r
+            if term[0] == 'ret':
+                return get(term[1])
+            nxt = term[1] if term[0] == 'jump' else (term[4] if CMP[term[2]](get(term[1]), get(term[3])) else term[5])
+            targets = [nxt] if phi_mode == 'edge' else self.successors(cur)
+            new = {}
+            for tb in targets:
+                for (v, inc) in self.blocks[tb][0]:
+                    if cur in inc:
+                        try:
+                            new[v] = get(inc[cur])
+                        except KeyError:
+                            if phi_mode == 'edge':
+                                raise
+            env.update(new)
+            cur = nxt
+        return None
+
+    def phi_pairs(self, bn, target=None):
+        """(phi, incoming) name pairs assigned at the end of block bn: all successors, or one edge"""
+        out = []
+        for tb in ([target] if target else self.successors(bn)):
+            for (v, inc) in self.blocks[tb][0]:
+                out.append((v, self.srcname[(v, bn)]))
+        return out
+
+
+def witness_loop():
+    # hdr: p = phi(entry: 0, hdr: nxt); nxt = p + 1; cjmp nxt < n ? hdr : ex;  ex: return p
+    return Prog('loop_liveout', ['n'],
+                {'entry': ([], [], ('jump', 'hdr')),
+                 'hdr': ([('p', {'entry': 0, 'hdr': 'nxt'})], [('nxt', '+', 'p', 1)],
+                         ('cjump', 'nxt', '<', 'n', 'hdr', 'ex')),
+                 'ex': ([], [], ('ret', 'p'))}, ['entry', 'hdr', 'ex'])
+
+
+def fixed_programs():
+    progs = [witness_loop()]
+    # swap: a, b = b, a on every iteration (parallel phi semantics), exit from the header
+    progs.append(Prog('swap', ['n'],
+                      {'entry': ([], [], ('jump', 'hdr')),
+                       'hdr': ([('a', {'entry': 1, 'body': 'b'}), ('b', {'entry': 2, 'body': 'a'}),
+                                ('i', {'entry': 0, 'body': 'i2'})], [],
+                               ('cjump', 'i', '<', 'n', 'body', 'ex')),
+                       'body': ([], [('i2', '+', 'i', 1)], ('jump', 'hdr')),
+                       'ex': ([], [('r', '-', 'a', 'b'), ('r2', '*', 'r', 10), ('r3', '+', 'r2', 'a')], ('ret', 'r3'))},
+                      ['entry', 'hdr', 'body', 'ex']))
+    # diamond
+    progs.append(Prog('diamond', ['n'],
+                      {'entry': ([], [], ('cjump', 'n', '<', 5, 'l', 'r')),
+                       'l': ([], [('x', '+', 'n', 100)], ('jump', 'j')),
+                       'r': ([], [('y', '*', 'n', 3)], ('jump', 'j')),
+                       'j': ([('z', {'l': 'x', 'r': 'y'})], [('w', '-', 'z', 1)], ('ret', 'w'))},
+                      ['entry', 'l', 'r', 'j']))
+    # rotating three phis, self loop, exit value is a header phi (live across the exit edge)
+    progs.append(Prog('rot3', ['n'],
+                      {'entry': ([], [], ('jump', 'hdr')),
+                       'hdr': ([('a', {'entry': 1, 'hdr': 'b'}), ('b', {'entry': 2, 'hdr': 'c'}),
+                                ('c', {'entry': 3, 'hdr': 'a'}), ('i', {'entry': 0, 'hdr': 'i2'})],
+                               [('i2', '+', 'i', 1)], ('cjump', 'i2', '<', 'n', 'hdr', 'ex')),
+                       'ex': ([], [('r', '*', 'a', 100), ('r2', '+', 'r', 'b')], ('ret', 'r2'))},
+                      ['entry', 'hdr', 'ex']))
+    # two successors that both have phis
+    progs.append(Prog('twophi', ['n'],
+                      {'entry': ([], [('t', '+', 'n', 1)], ('cjump', 'n', '>', 0, 'p', 'q')),
+                       'p': ([('u', {'entry': 'n'})], [('u2', '*', 'u', 2)], ('jump', 'q')),
+                       'q': ([('v', {'entry': 't', 'p': 'u2'})], [], ('ret', 'v'))},
+                      ['entry', 'p', 'q']))
+    return progs
+
+
+def random_program(rng, k):
+    """do-while loop with nphi rotating/updated phis; the result mixes header phis and their updates"""
+    nphi = rng.randrange(1, 4)
+    names = ['p%d' % i for i in range(nphi)]
+    body, upd = [], {}
+    for i, p in enumerate(names):
+        op = rng.choice(['+', '-', '*', '^'])
+        other = rng.choice(names + [rng.randrange(1, 5)])
+        body.append(('n%d' % i, op, p, other))
+    srcs = list(names) + ['n%d' % i for i in range(nphi)]
+    phis = [(p, {'entry': rng.randrange(0, 7), 'hdr': rng.choice(srcs)}) for p in names]
+    phis.append(('i', {'entry': 0, 'hdr': 'i2'}))
+    body.append(('i2', '+', 'i', 1))
+    res = rng.choice(srcs)
+    res2 = rng.choice(srcs)
+    exit_from_header = rng.random() < 0.3
+    if exit_from_header:
+        blocks = {'entry': ([], [], ('jump', 'hdr')),
+                  'hdr': ([(p, {'entry': inc['entry'], 'latch': inc['hdr']}) for (p, inc) in phis], [],
+                          ('cjump', 'i', '<', 'n', 'latch', 'ex')),
+                  'latch': ([], body, ('jump', 'hdr')),
+                  'ex': ([], [('r', '+', names[0], rng.choice(names))], ('ret', 'r'))}
+        return Prog('rnd%d' % k, ['n'], blocks, ['entry', 'hdr', 'latch', 'ex'])
+    blocks = {'entry': ([], [], ('jump', 'hdr')),
+              'hdr': (phis, body, ('cjump', 'i2', '<', 'n', 'hdr', 'ex')),
+              'ex': ([], [('r', '*', res, 3), ('r2', '+', 'r', res2)], ('ret', 'r2'))}
+    return Prog('rnd%d' % k, ['n'], blocks, ['entry', 'hdr', 'ex'])
+
+
+def block_text(text, fname, bn):
+    """lines (with indentation relative to the block body) emitted for block bn of function fname"""
+    lines = text.splitlines()
+    out, state, ind = [], 0, 0
+    for ln in lines:
+        if state == 0 and ln.startswith('def %s(' % fname):
+            state = 1
+        elif state == 1 and ln.strip() == 'if _irpy_current_block == "%s":' % bn:
+            state = 2
+            ind = len(ln) - len(ln.lstrip()) + 4
+        elif state == 2:
+            cur = len(ln) - len(ln.lstrip())
+            if not ln.strip() or cur < ind:
+                break
+            out.append((cur - ind, ln.strip()))
+        elif state == 1 and ln.startswith('rt.register_function'):
+            break
+    return out
+
+
+def phi_variant(prog, text):
+    """'all' (as in /repo), 'edge' (repaired) or None: where the phi assignment of the witness latch is"""
+    bt = block_text(text, prog.name, 'hdr')
+    lines0 = [l for (d, l) in bt if d == 0]
+    lines1 = [l for (d, l) in bt if d > 0]
+    if 'p = nxt' in lines0 and 'p = nxt' not in lines1:
+        return 'all'
+    if 'p = nxt' in lines1 and 'p = nxt' not in lines0:
+        return 'edge'
+    return None
+
+
+def expected_phi_lines(prog, bn, variant):
+    """[(depth, text)] of the tuple assignments the generator emits for block bn"""
+    def line(pairs):
+        return '%s = %s' % (', '.join(p for p, _ in pairs), ', '.join(str(s) for _, s in pairs))
+    out = []
+    if variant == 'all':
+        pairs = prog.phi_pairs(bn)
+        if pairs:
+            out.append((0, pairs))
+    else:
+        t = prog.blocks[bn][2]
+        for tb in prog.successors(bn):
+            pairs = prog.phi_pairs(bn, tb)
+            if pairs:
+                out.append((1 if t[0] == 'cjump' else 0, pairs))
+    return [(d, line(p), p) for (d, p) in out]
+
+
+# ------------------------------------------------------------------ known defect classes
+CLS_ROUND = 'rounds-half-even-instead-of-truncating'
+CLS_PHI = 'assigns-phis-of-untaken-successor'
+CLS_ROT = 'rol-ror-emitted-as-invalid-python'
+CLS_NAN = 'nan-constant-emitted-as-undefined-name'
+
+
+def float_pool(rng, thorough):
+    xs = [0.0, -0.0, 0.5, -0.5, 1.5, 2.5, 3.5, -1.5, -2.5, 2.7, -2.7, 2.75, -2.75, 0.9999999, -0.9999999,
+          1e-300, 127.5, 127.99, 128.0, -128.5, -128.99, -129.0, 255.5, 255.99, 256.0, 32767.5, 32767.9, 65535.5,
+          2147483647.5, 2147483647.0, 2147483648.0, -2147483648.5, -2147483648.99, -2147483649.0,
+          4294967295.5, 4294967296.0, 9.2e18, 1.8e19, -9.3e18, 1e30, float('inf'), float('-inf'), float('nan'),
+          4503599627370495.5, -4503599627370495.5]
+    for _ in range(200 if thorough else 40):
+        xs.append(rng.uniform(-300, 300))
+        xs.append(rng.randrange(-70000, 70000) + rng.choice([0.25, 0.5, 0.75]))
+    return xs
+
+
+def fl_term(x):
+    if math.isnan(x):
+        return 'FNaN'
+    if math.isinf(x):
+        return '(FInf %s)' % ('false' if x > 0 else 'true')
+    n, d = x.as_integer_ratio()
+    return '(FFinite %s %d)' % (vlib.coq_z(n), d)
+
+
+def z(v):
+    return vlib.coq_z(v)
+
+
+def run(ctx):
+    ir, _, _ = _ppci()
+    thorough = not ctx.quick()
+    infos, rows, rt_text = regen(ctx)
+    ok, _ = ctx.build(['Proofs/C24_ir2py.vo'])
+    if ok:
+        ctx.check_props('Props/C24.v')
+    model_ok = ctx.build(['Model/Ir2Py.vo', 'Lib/Val.vo'])[0]
+
+    # ---- emit the one-instruction module once
+    m, idx = build_arith_module(ir)
+    text = emit_module(m)
+    ns = load_module(text)
+    with open(os.path.join(ctx.work, 'emitted_arith.py'), 'w') as f:
+        f.write(text)
+
+    # which gen_cast variant does this tree emit?
+    sample = entry_lines(text, idx['fcast'][('f64', 'i32')])
+    cast_variant = 'CastRound' if any('int(round(' in l for l in sample) else 'CastTrunc'
+    ctx.cov['stages']['cast_variant'] = cast_variant
+
+    cases, recs = [], []
+
+    def add(term, val, rec):
+        cases.append((term, val))
+        recs.append(rec)
+
+    # ---- (a) helper functions: py2coq translation vs exec of the emitted text
+    IrPy = ns['IrPy']
+    hp = [0, 1, -1, 2, -2, 7, -7, 127, 128, -128, -129, 255, 256, 32767, -32768, 65535, 2 ** 31, -2 ** 31, 2 ** 31 - 1,
+          2 ** 32 - 1, 2 ** 63, -2 ** 63, 2 ** 64 - 1, 2 ** 64, ctx.rng.randrange(-2 ** 70, 2 ** 70)]
+    for v in hp:
+        for bits in (1, 8, 16, 32, 64):
+            for sg in (True, False):
+                add('correct %s %d %s' % (z(v), bits, 'true' if sg else 'false'),
+                    outcome(IrPy.correct, v, bits, sg), ('correct', (v, bits, sg)))
+    dp = [0, 1, -1, 2, -2, 3, -3, 7, -7, 100, -100, 127, -128, 2 ** 31 - 1, -2 ** 31, 2 ** 63 - 1, -2 ** 63]
+    for a in dp:
+        for b in dp:
+            add('idiv %s %s' % (z(a), z(b)), outcome(IrPy.idiv, a, b), ('idiv', (a, b)))
+            add('irem %s %s' % (z(a), z(b)), outcome(IrPy.irem, a, b), ('irem', (a, b)))
+    for a in [0, 1, -1, 5, -5, 127, -128, 255, 2 ** 31 - 1, -2 ** 31, 2 ** 64 - 1]:
+        for n in [0, 1, 2, 7, 8, 9, 31, 32, 33, 63, 64, 65, -1, 255]:
+            for bits in (8, 32, 64):
+                add('ishl %s %s %d' % (z(a), z(n), bits), outcome(IrPy.ishl, a, n, bits), ('ishl', (a, n, bits)))
+                add('ishr %s %s %d' % (z(a), z(n), bits), outcome(IrPy.ishr, a, n, bits), ('ishr', (a, n, bits)))
+    n_helper = len(cases)
+
+    # ---- (b) text correspondence: printed model == emitted statements, every (op, type)
+    for (tn, bits, sg) in INT_TYPES:
+        for (op, cop) in BINOPS:
+            if op in ('rol', 'ror'):
+                t2 = emit_module(build_rot_module(ir, op, tn))
+                lines = entry_lines(t2, 'f')
+            else:
+                lines = entry_lines(text, idx['binop'][(op, tn)])
+            add('show_stmts (gen_binop %s "r" "a" "b" %s)' % (cop, tn), lines, ('text-binop', (op, tn)))
+        for (op, cop) in UNOPS:
+            add('show_stmts (gen_unop %s "r" "a" %s)' % (cop, tn), entry_lines(text, idx['unop'][(op, tn)]),
+                ('text-unop', (op, tn)))
+        for sn in [t[0] for t in INT_TYPES] + ['f32', 'f64']:
+            key = 'cast' if sn[0] in 'iu' else 'fcast'
+            add('show_stmts (gen_cast %s "r" "a" %s)' % (cast_variant, tn), entry_lines(text, idx[key][(sn, tn)]),
+                ('text-cast', (sn, tn)))
+    n_text = len(cases) - n_helper
+
+    # ---- (c) value correspondence on boundary pools: model py_sem vs executed emitted function
+    nontriv = 0
+    for (tn, bits, sg) in INT_TYPES:
+        pool = small_pool(ctx.rng, bits, sg)
+        for (op, cop) in BINOPS:
+            if op in ('rol', 'ror'):
+                continue
+            fn = ns[idx['binop'][(op, tn)]]
+            for a in pool:
+                for b in pool:
+                    out = outcome(fn, a, b)
+                    add('py_binop %s %s %s %s' % (cop, tn, z(a), z(b)), out, ('binop', (op, tn, a, b)))
+                    if o_binop(op, bits, sg, a, b) is not None and (a or b):
+                        nontriv += 1
+        for (op, cop) in UNOPS:
+            fn = ns[idx['unop'][(op, tn)]]
+            for a in value_pool(ctx.rng, bits, sg):
+                add('py_unop %s %s %s' % (cop, tn, z(a)), outcome(fn, a), ('unop', (op, tn, a)))
+                nontriv += 1 if a else 0
+        for (sn, sbits, ssg) in INT_TYPES:
+            fn = ns[idx['cast'][(sn, tn)]]
+            for a in small_pool(ctx.rng, sbits, ssg):
+                add('py_cast_int %s %s %s' % (cast_variant, tn, z(a)), outcome(fn, a), ('cast', (sn, tn, a)))
+                nontriv += 1 if a else 0
+    fl = float_pool(ctx.rng, thorough)
+    for (tn, bits, sg) in INT_TYPES:
+        fn = ns[idx['fcast'][('f64', tn)]]
+        for x in (fl if tn in ('i32', 'u8', 'i64') or thorough else fl[:45]):
+            add('py_cast_float %s %s %s' % (cast_variant, tn, fl_term(x)), outcome(fn, x), ('fcast', (tn, repr(x))))
+            nontriv += 1 if o_cast_float(bits, sg, x) else 0
+    n_value = len(cases) - n_helper - n_text
+
+    # ---- (d) memory helpers: struct model vs CPython struct, load/store model vs emitted rt
+    for (ty, lfmt, size, sfmt) in rows:
+        if lfmt in ('f', 'd'):
+            continue
+        sgn = lfmt.islower()
+        for v in value_pool(ctx.rng, 8 * size, sgn) + [1 << (8 * size), -(1 << (8 * size - 1)) - 1, 1 << (8 * size - 1)]:
+            def do_store(ty=ty, v=v):
+                r = IrPy()
+                r.stack = bytearray(range(1, 13))
+                getattr(r, 'store_' + ty)(3, v)
+                return list(r.stack)
+            add('store "%s" [1;2;3;4;5;6;7;8;9;10;11;12] 3 %s' % (ty, z(v)), outcome(do_store), ('store', (ty, v)))
+        for _ in range(6):
+            data = [ctx.rng.choice([0, 1, 127, 128, 255, ctx.rng.randrange(256)]) for _ in range(12)]
+            for addr in (0, 3, 12 - size, 12 - size + 1):
+                def do_load(ty=ty, data=data, addr=addr):
+                    r = IrPy()
+                    r.stack = bytearray(data)
+                    return getattr(r, 'load_' + ty)(addr)
+                add('load "%s" %s %d' % (ty, to_term(data), addr), outcome(do_load), ('load', (ty, data, addr)))
+    n_mem = len(cases) - n_helper - n_text - n_value
+
+    # ---- (e) phis: emitted tuple assignments vs the model of the variant this tree emits
+    progs = fixed_programs() + [random_program(ctx.rng, k) for k in range(40 if thorough else 12)]
+    pm = ir.Module('c24phi')
+    for pr in progs:
+        pr.build(ir, pm)
+    ptext = emit_module(pm)
+    with open(os.path.join(ctx.work, 'emitted_phi.py'), 'w') as f:
+        f.write(ptext)
+    pv = phi_variant(progs[0], ptext)
+    ctx.cov['stages']['phi_variant'] = pv
+    if pv is None:
+        ctx.failed_stages.append(('correspondence', 'the phi assignment of the witness loop is neither at the end of '
+                                                    'the block nor inside the branches: fill_phis model does not apply'))
+    else:
+        fillfn = 'fill_phis_all' if pv == 'all' else 'fill_phis_edge'
+        for pr in progs:
+            for bn in pr.order:
+                bt = block_text(ptext, pr.name, bn)
+                phinames = {v for b2 in pr.order for (v, _) in pr.blocks[b2][0]}
+                got = sorted((min(d, 1), l) for (d, l) in bt
+                             if ' = ' in l and all(t.strip() in phinames for t in l.split(' = ')[0].split(',')))
+                exp = expected_phi_lines(pr, bn, pv)
+                if got != sorted((d, l) for (d, l, _) in exp):
+                    ctx.failed_stages.append(('correspondence', 'phi assignments emitted for %s.%s are %r, the model of '
+                                              'fill_phis (%s) expects %r' % (pr.name, bn, got, pv, [(d, l) for d, l, _ in exp])))
+                    continue
+                for (d, line, pairs) in exp:
+                    names = sorted({n for pq in pairs for n in pq})
+                    num = {n: i + 1 for i, n in enumerate(names)}
+                    envv = {n: ctx.rng.randrange(-50, 50) for n in names}
+                    scope = dict(envv)
+                    exec(line, {}, scope)
+                    coq_pairs = '[%s]' % '; '.join('(%d, %d)' % (num[a], num[b]) for a, b in pairs)
+                    coq_env = '[%s]' % '; '.join('(%d%%nat, %s)' % (num[n], z(envv[n])) for n in names)
+                    if pv == 'all':
+                        arg = '[%s]' % coq_pairs
+                    else:
+                        arg = coq_pairs
+                    term = '(e <- %s (%s)%%nat %s ;; Ok (map (lookup e) [%s]%%nat))' % (
+                        fillfn, arg, coq_env, '; '.join(str(num[n]) for n in names))
+                    add(term, OkV([scope[n] for n in names]), ('phi', (pr.name, bn, line)))
+    n_phi = len(cases) - n_helper - n_text - n_value - n_mem
+
+    ctx.cov['stages']['correspondence_distribution'] = {
+        'helpers': n_helper, 'emitted_text': n_text, 'values': n_value, 'memory': n_mem, 'phi_assignments': n_phi}
+    ctx.cov['distinct_nontrivial'] += nontriv
+    for r in recs[n_helper + n_text:: max(1, (len(recs) - n_helper - n_text) // 8)]:
+        ctx.note_sample({'kind': r[0], 'args': repr(r[1])})
+    if model_ok:
+        bad = ctx.run_cases('ir2py', ['Spec.IRSemArith', 'Gen.ir2py_runtime', 'Model.Ir2Py'], cases)
+        if bad:
+            for i in bad[:6]:
+                ctx.log('model/implementation disagree on', recs[i], 'impl=',
+                        cases[i][1].v if isinstance(cases[i][1], OkV) else cases[i][1])
+            ctx.failed_stages.append(('correspondence', 'Model.Ir2Py / Gen.ir2py_runtime disagree with the emitted code on '
+                                      '%d cases, first: %r' % (len(bad), recs[bad[0]])))
+
+    # ---- search
+    search(ctx, shared=(ns, idx, cast_variant, progs, ptext, pv))
+    ctx.cov['exhaustive'] = False
+
+
+def search(ctx, shared=None):
+    """implementation (executed emitted Python) vs the independent oracle of the IR semantics"""
+    ir, _, _ = _ppci()
+    thorough = (not ctx.quick()) or bool(ctx.failed_stages)
+    if shared is None:
+        m, idx = build_arith_module(ir)
+        ns = load_module(emit_module(m))
+        progs = fixed_programs() + [random_program(ctx.rng, k) for k in range(12)]
+        pm = ir.Module('c24phi')
+        for pr in progs:
+            pr.build(ir, pm)
+        ptext = emit_module(pm)
+        pv = phi_variant(progs[0], ptext)
+    else:
+        ns, idx, _, progs, ptext, pv = shared
+    n_eval = 0
+    replay_hint = ('PYTHONPATH=$VERIF_REPO:/verif/tools python -c "from props import c24; c24.replay_cli()" '
+                   '(or ./check C24 --replay <this file>)')
+
+    # binops / unops: boundary pools for all widths, 8-bit exhaustive (strided in the quick tier)
+    for (tn, bits, sg) in INT_TYPES:
+        lo, hi = rng_of(bits, sg)
+        pool = value_pool(ctx.rng, bits, sg, 6 if thorough else 2)
+        pairs = [(a, b) for a in pool for b in pool]
+        if bits == 8:
+            step = 1 if thorough else 5
+            pairs += [(a, b) for a in range(lo, hi, step) for b in range(lo, hi, step)]
+        for (op, cop) in BINOPS:
+            if op in ('rol', 'ror'):
+                continue
+            fn = ns[idx['binop'][(op, tn)]]
+            for (a, b) in pairs:
+                exp = o_binop(op, bits, sg, a, b)
+                if exp is None:
+                    continue
+                n_eval += 1
+                got = outcome(fn, a, b)
+                if not (isinstance(got, OkV) and got.v == exp and type(got.v) is int):
+                    ctx.violation({'fn': 'gen_binop', 'key': 'binop %s %s' % (op, tn), 'op': op, 'type': tn,
+                                   'args': [a, b], 'expected': exp,
+                                   'actual': got.v if isinstance(got, OkV) else 'exception',
+                                   'how_to_replay': replay_hint})
+        for (op, cop) in UNOPS:
+            fn = ns[idx['unop'][(op, tn)]]
+            for a in (range(lo, hi) if bits == 8 else pool):
+                n_eval += 1
+                exp = o_unop(op, bits, sg, a)
+                got = outcome(fn, a)
+                if not (isinstance(got, OkV) and got.v == exp):
+                    ctx.violation({'fn': 'gen_unop', 'key': 'unop %s %s' % (op, tn), 'op': op, 'type': tn, 'args': [a],
+                                   'expected': exp, 'actual': got.v if isinstance(got, OkV) else 'exception',
+                                   'how_to_replay': replay_hint})
+        for (sn, sbits, ssg) in INT_TYPES:
+            fn = ns[idx['cast'][(sn, tn)]]
+            slo, shi = rng_of(sbits, ssg)
+            for a in (range(slo, shi) if sbits == 8 else value_pool(ctx.rng, sbits, ssg)):
+                n_eval += 1
+                exp = o_wrap(a, bits, sg)
+                got = outcome(fn, a)
+                if not (isinstance(got, OkV) and got.v == exp):
+                    ctx.violation({'fn': 'gen_cast', 'key': 'cast %s->%s' % (sn, tn), 'src': sn, 'dst': tn, 'args': [a],
+                                   'expected': exp, 'actual': got.v if isinstance(got, OkV) else 'exception',
+                                   'how_to_replay': replay_hint})
+        # float -> int
+        for sn in ('f64', 'f32'):
+            fn = ns[idx['fcast'][(sn, tn)]]
+            xs = float_pool(ctx.rng, thorough)
+            if sn == 'f32':
+                xs = [struct.unpack('f', struct.pack('f', x))[0] for x in xs if abs(x) < 1e30 or x != x]
+            for x in xs:
+                exp = o_cast_float(bits, sg, x)
+                if exp is None:
+                    continue
+                n_eval += 1
+                got = outcome(fn, x)
+                if isinstance(got, OkV) and got.v == exp:
+                    continue
+                rec = {'fn': 'gen_cast', 'src': sn, 'dst': tn, 'args': [repr(x)], 'expected': exp,
+                       'actual': got.v if isinstance(got, OkV) else 'exception', 'how_to_replay': replay_hint}
+                if isinstance(got, OkV) and got.v == py_round_wrap(bits, sg, x):
+                    rec['class'] = CLS_ROUND
+                    rec['key'] = CLS_ROUND
+                else:
+                    rec['key'] = 'fcast %s->%s' % (sn, tn)
+                ctx.violation(rec)
+
+    # witnesses of the float cast defect, re-executed on every run (2.7 -> 2, -2.7 -> -2, 2.75 -> 2)
+    fn = ns[idx['fcast'][('f64', 'i32')]]
+    for x, exp in ((2.7, 2), (-2.7, -2), (2.75, 2), (2.5, 2), (3.5, 3)):
+        n_eval += 1
+        got = outcome(fn, x)
+        if not (isinstance(got, OkV) and got.v == exp):
+            ctx.violation({'fn': 'gen_cast', 'class': CLS_ROUND, 'key': CLS_ROUND, 'src': 'f64', 'dst': 'i32',
+                           'args': [repr(x)], 'expected': exp, 'actual': got.v if isinstance(got, OkV) else 'exception',
+                           'how_to_replay': replay_hint})
+
+    # rol / ror (known finding while the emitted text is not Python)
+    for op in ('rol', 'ror'):
+        for (tn, bits, sg) in (INT_TYPES if thorough else [INT_TYPES[4], INT_TYPES[2]]):
+            try:
+                rns = load_module(emit_module(build_rot_module(ir, op, tn)))
+            except SyntaxError:
+                ctx.violation({'fn': 'gen_binop', 'class': CLS_ROT, 'key': CLS_ROT, 'op': op, 'type': tn,
+                               'args': [129 % (1 << (bits - 1)), 1], 'actual': 'SyntaxError in the emitted module',
+                               'how_to_replay': replay_hint})
+                n_eval += 1
+                continue
+            for a in small_pool(ctx.rng, bits, sg):
+                for b in range(0, bits, max(1, bits // 8)):
+                    lo, hi = rng_of(bits, sg)
+                    if not lo <= b < hi:
+                        continue
+                    n_eval += 1
+                    exp = o_binop(op, bits, sg, a, b)
+                    got = outcome(rns['f'], a, b)
+                    if not (isinstance(got, OkV) and got.v == exp):
+                        ctx.violation({'fn': 'gen_binop', 'key': 'binop %s %s' % (op, tn), 'op': op, 'type': tn,
+                                       'args': [a, b], 'expected': exp,
+                                       'actual': got.v if isinstance(got, OkV) else 'exception'})
+
+    # NaN constant (gen_const)
+    mm = ir.Module('c24nan')
+    f, blk, _ = new_function(ir, mm, 'f', ir.f64, [])
+    c = ir.Const(float('nan'), 'c', ir.f64)
+    blk.add_instruction(c)
+    blk.add_instruction(ir.Return(c))
+    got = outcome(lambda: load_module(emit_module(mm))['f']())
+    n_eval += 1
+    if not (isinstance(got, OkV) and isinstance(got.v, float) and math.isnan(got.v)):
+        ctx.violation({'fn': 'gen_const', 'class': CLS_NAN, 'key': CLS_NAN, 'args': ['nan'],
+                       'actual': 'exception (NameError: nan)' if not isinstance(got, OkV) else repr(got.v)})
+
+    # memory: store/load through gen_store/gen_load of every integer type (end to end), and reinterpretation
+    mns = load_module(emit_module(build_mem_module(ir)))
+    for (tn, bits, sg) in INT_TYPES:
+        lo, hi = rng_of(bits, sg)
+        for v in (range(lo, hi) if bits == 8 else value_pool(ctx.rng, bits, sg, 6)):
+            n_eval += 2
+            got = outcome(mns['m_' + tn], v)
+            if not (isinstance(got, OkV) and got.v == v):
+                ctx.violation({'fn': 'gen_store/gen_load', 'key': 'mem ' + tn, 'type': tn, 'args': [v], 'expected': v,
+                               'actual': got.v if isinstance(got, OkV) else 'exception'})
+            exp = o_wrap(v, bits, not sg)
+            got = outcome(mns['x_' + tn], v)
+            if not (isinstance(got, OkV) and got.v == exp):
+                ctx.violation({'fn': 'gen_store/gen_load', 'key': 'reinterpret ' + tn, 'type': tn, 'args': [v],
+                               'expected': exp, 'actual': got.v if isinstance(got, OkV) else 'exception'})
+        # byte order through the runtime object of the emitted module
+        rt = mns['rt']
+        base = rt.alloca(8)[0]
+        v = (0x0102030405060708 >> (64 - bits))
+        getattr(rt, 'store_' + tn)(base, o_wrap(v, bits, sg))
+        raw = bytes(rt.read_mem(base, bits // 8))
+        rt.free(8)
+        n_eval += 1
+        if raw != bytes((v >> (8 * i)) & 255 for i in range(bits // 8)):
+            ctx.violation({'fn': 'store_' + tn, 'key': 'byteorder ' + tn, 'args': [v], 'actual': list(raw),
+                           'expected': 'little-endian bytes'})
+
+    # CFG programs with phis vs the reference interpreter
+    pns = load_module(ptext)
+    for pr in progs:
+        for n in (list(range(0, 9)) + ([17, 40] if thorough else [])):
+            exp = pr.interp([n])
+            if exp is None:
+                continue
+            n_eval += 1
+            got = outcome(pns[pr.name], n)
+            if isinstance(got, OkV) and got.v == exp:
+                continue
+            rec = {'fn': 'fill_phis', 'program': pr.name, 'args': [n], 'expected': exp,
+                   'actual': got.v if isinstance(got, OkV) else 'exception', 'blocks': repr(pr.blocks),
+                   'how_to_replay': replay_hint}
+            if pv == 'all' and isinstance(got, OkV) and got.v == pr.interp([n], phi_mode='all'):
+                rec['class'] = CLS_PHI
+                rec['key'] = CLS_PHI
+            else:
+                rec['key'] = 'cfg ' + pr.name
+            ctx.violation(rec)
+    ctx.cov['stages']['oracle_sweep'] = ctx.cov['stages'].get('oracle_sweep', 0) + n_eval
+    ctx.cov['evaluations'] += n_eval
+
+
+def replay(rec):
+    """./check C24 --replay FILE : re-run the recorded failing input on the current tree"""
+    import json
+    ir, _, _ = _ppci()
+    print(json.dumps({k: rec[k] for k in rec if k != 'failed_stages'}, indent=1))
+    fn = rec.get('fn')
+    try:
+        if fn == 'gen_binop' and 'op' in rec:
+            if rec['op'] in ('rol', 'ror'):
+                ns = load_module(emit_module(build_rot_module(ir, rec['op'], rec['type'])))
+                got = ns['f'](*rec['args'])
+            else:
+                m, idx = build_arith_module(ir)
+                got = load_module(emit_module(m))[idx['binop'][(rec['op'], rec['type'])]](*rec['args'])
+        elif fn == 'gen_unop':
+            m, idx = build_arith_module(ir)
+            got = load_module(emit_module(m))[idx['unop'][(rec['op'], rec['type'])]](*rec['args'])
+        elif fn == 'gen_cast':
+            m, idx = build_arith_module(ir)
+            key = 'fcast' if rec['src'].startswith('f') else 'cast'
+            a = float(rec['args'][0]) if key == 'fcast' else rec['args'][0]
+            got = load_module(emit_module(m))[idx[key][(rec['src'], rec['dst'])]](a)
+        elif fn == 'fill_phis':
+            progs = {p.name: p for p in fixed_programs()}
+            pr = progs.get(rec.get('program'), witness_loop())
+            m = ir.Module('replay')
+            pr.build(ir, m)
+            got = load_module(emit_module(m))[pr.name](*rec['args'])
+        else:
+            print('no executable replay for this record')
+            return 0
+    except Exception as ex:   # noqa: BLE001
+        got = 'exception %s: %s' % (type(ex).__name__, ex)
+    print('implementation now returns:', got, '  expected:', rec.get('expected'))
+    return 0 if got == rec.get('expected') else 1
+
+
+MANIFEST = {
+    'text': 'proof: for every integer width and every in-range operand, the Python statements that ir2py emits for '
+            '+ - * / % | & ^ << >>, unary - ~, comparisons and int->int casts, run over the runtime helpers it emits '
+            '(correct, idiv, irem, ishl, ishr), compute exactly the IR result (wrap-around, truncating / and %, '
+            'arithmetic/logical >>) whenever the IR defines one; load_/store_ helpers of all eight integer types are '
+            'little-endian two\'s complement with store-then-load identity and no effect outside the accessed bytes; '
+            'a per-edge phi tuple assignment is the simultaneous phi semantics. Refuted with witnesses replayed on '
+            'the real code: float->int casts round (2.7 -> 3) instead of truncating, and fill_phis overwrites the phis of '
+            'the successor that is not taken (live-out loop phi returns n instead of n-1); repairs are proposed and the '
+            'positive theorems hold for the repaired generators. rol/ror are emitted as invalid Python (known finding)',
+    'note': 'trusted: Coq kernel; py2coq on the emitted helper text; the hand model of the statement generators (its '
+            'printed text is compared with the emitted text for every (op, type) on every run, its values on boundary '
+            'pools); CPython facts about int, round, int(float), struct on a little-endian host. Not modelled: the '
+            'while/if block dispatcher, calls, alloca/free, float arithmetic, ptr arithmetic (no wrap; ptr is a 4-byte '
+            'signed int in memory) - these are only executed against an independent reference interpreter. No axioms.',
+    'technique': 'Coq proof over py2coq-translated emitted runtime + hand model of the generators, text/value '
+                 'correspondence, reference-interpreter search',
+}
